@@ -262,6 +262,41 @@ fn es<T>(r: Result<T, stretto::CacheError>) -> Result<T, String> {
     r.map_err(|e| e.to_string())
 }
 
+fn use_ref<S: std::hash::BuildHasher>(r: stretto::ValueRef<'_, Val, S>, k: u64) -> (Val, Duration) {
+    let t = r.ttl();
+    let v = match k % 3 {
+        0 => *r.value(),
+        1 => *r.as_ref(),
+        _ => return (r.read(), t),
+    };
+    if k % 2 == 1 {
+        r.release();
+    }
+    (v, t)
+}
+
+/// every way the guard offers to read and to write, chosen by the key
+fn use_ref_mut<S: std::hash::BuildHasher>(mut r: stretto::ValueRefMut<'_, Val, S>, k: u64, write: Option<Val>) -> Val {
+    let seen = match k % 3 {
+        0 => *r.value(),
+        1 => r.clone_inner(),
+        _ => *r.value_mut(),
+    };
+    match write {
+        None => {
+            if k % 2 == 0 {
+                r.release();
+            }
+        }
+        Some(w) => match (k + w.tag as u64) % 3 {
+            0 => r.write(w),
+            1 => r.write_once(w),
+            _ => *r.value_mut() = w,
+        },
+    }
+    seen
+}
+
 /// the panicking wrappers unwrap the try_* result: a panic is that Err
 fn unwrapped<T>(f: impl FnOnce() -> T) -> Result<T, String> {
     std::panic::catch_unwind(std::panic::AssertUnwindSafe(f)).map_err(|p| {
@@ -295,7 +330,7 @@ impl Sut for SyncSut {
         es(self.cache.try_remove(&k))
     }
     fn get(&self, k: u64) -> Option<(Val, Duration)> {
-        self.cache.get(&k).map(|r| (*r.value(), r.ttl()))
+        self.cache.get(&k).map(|r| use_ref(r, k))
     }
     fn get_hold(&self, k: u64, advance: &dyn Fn()) -> Option<(Val, Duration, Duration)> {
         self.cache.get(&k).map(|r| {
@@ -305,13 +340,7 @@ impl Sut for SyncSut {
         })
     }
     fn get_mut(&self, k: u64, write: Option<Val>) -> Option<Val> {
-        self.cache.get_mut(&k).map(|mut r| {
-            let seen = *r.value();
-            if let Some(w) = write {
-                r.write(w);
-            }
-            seen
-        })
+        self.cache.get_mut(&k).map(|r| use_ref_mut(r, k, write))
     }
     fn get_ttl(&self, k: u64) -> Option<Duration> {
         self.cache.get_ttl(&k)
@@ -593,7 +622,7 @@ impl Sut for AsyncSut {
         es(r)
     }
     fn get(&self, k: u64) -> Option<(Val, Duration)> {
-        self.now(self.cache.get(&k)).map(|r| (*r.value(), r.ttl()))
+        self.now(self.cache.get(&k)).map(|r| use_ref(r, k))
     }
     fn get_hold(&self, k: u64, advance: &dyn Fn()) -> Option<(Val, Duration, Duration)> {
         self.now(self.cache.get(&k)).map(|r| {
@@ -603,13 +632,7 @@ impl Sut for AsyncSut {
         })
     }
     fn get_mut(&self, k: u64, write: Option<Val>) -> Option<Val> {
-        self.now(self.cache.get_mut(&k)).map(|mut r| {
-            let seen = *r.value();
-            if let Some(w) = write {
-                r.write(w);
-            }
-            seen
-        })
+        self.now(self.cache.get_mut(&k)).map(|r| use_ref_mut(r, k, write))
     }
     fn get_ttl(&self, k: u64) -> Option<Duration> {
         self.cache.get_ttl(&k)
